@@ -161,6 +161,24 @@ class ModuleV:
         return 'ModuleV(%s)' % self.name
 
 
+class StateGlobal:
+    """registry override for a module-level OBJECT of the tree (e.g. `_curves = _Curves()`): the object lives in the heap of
+    each state and is created on first use by `build(engine, state) -> Ref` (remembered in st.ghost['globals'])"""
+
+    def __init__(self, key, build):
+        self.key = key
+        self.build = build
+
+    def get(self, E, st):
+        g = st.ghost.get('globals', {})
+        if self.key not in g:
+            ref = self.build(E, st)
+            g = dict(st.ghost.get('globals', {}))
+            g[self.key] = ref
+            st.ghost['globals'] = g
+        return g[self.key]
+
+
 class ExcV:
     """an exception instance"""
 
